@@ -467,7 +467,7 @@ Proof. apply blocks_count. Qed.
 
 Theorem read_enc_blocks w tb table rest :
   table_ok table = true -> (max_code_len table <= 40)%nat ->
-  Forall (BodyL.wf_prefix w) table -> (6 <= length rest)%nat ->
+  Forall (BodyL.wf_prefix w) table -> (stride <= length rest)%nat ->
   forall blocks fuel, Forall (wf_block table) blocks ->
   (length (flat_map sb_offsets blocks) <= fuel)%nat ->
   read_blocks fuel w tb table (Nlen (flat_map sb_offsets blocks))
@@ -539,7 +539,7 @@ Proof.
     reflexivity.
   - rewrite (read_enc_blocks w tb table (body_pad raw ++ rest) Htab Hml Hwf).
     + reflexivity.
-    + rewrite app_length. unfold Nlen in Hrest. lia.
+    + pose proof stride_le_footer. rewrite app_length. unfold Nlen in Hrest. lia.
     + exact Hb.
     + unfold Nlen. lia.
 Qed.
